@@ -175,7 +175,8 @@ def run(run):
     smalls = small_cases(rng, 26 if quick else 120)
     for inputs, output, size, kind in smalls:
         N = len(inputs)
-        presets = PRESETS_SMALL if not quick else rng.sample(PRESETS_SMALL, 5)
+        # the degenerate hand-written cases get every preset; random ones a sample in the quick tier
+        presets = PRESETS_SMALL if (not quick or not kind.startswith("rand:")) else rng.sample(PRESETS_SMALL, 5)
         for pre in presets:
             if pre.startswith("optimal") or pre in ("dp", "dynamic-programming"):
                 if N > 7:
@@ -247,6 +248,13 @@ def run(run):
         call(f"array_contract_path(optimize='{pre}')", "graph:" + kind, N,
              lambda: ct.array_contract_path(inputs, output, size, optimize=pre, cache=False), inputs, output, size, "path",
              timeout=300)
+        # the same network with scalar tensors appended / removed again, through the same (shared) preset object:
+        # every answer must still be a contraction of the network it was asked about
+        for extra in ([1, 2, 0] if rng.random() < 0.5 else [2, 0, 1]):
+            inp2 = tuple(inputs) + ((),) * extra
+            call(f"array_contract_path(optimize='{pre}')", "graph+scalars:" + kind, len(inp2),
+                 lambda: ct.array_contract_path(inp2, output, size, optimize=pre, cache=False), inp2, output, size, "path",
+                 timeout=300, extra={"scalars_appended": extra})
     judge(run, cases, descs)
     run.cov["rule"] = ("finders: 11 presets via array_contract_path/tree, 9 optimizer classes via search/__call__, 8 hyper methods via "
                        "their registered trial functions with parameters sampled from the registered space, explicit linear/edge/"
